@@ -122,7 +122,8 @@ def check_observer(rep, F, rule, where, p, W, present_fmt, absent_fmt, T):
                 "%s: the query's node is %s (%s) so the answer must be %s, but the function returns %s (inputs: %s)"
                 % (where, cls[0], cls[1], want, got, C.inputs_str(p, 12)), config=F.config)
     else:
-        rep.ok(rule, where, cls[0], sample=None)
+        rep.ok(rule, where, cls[0], sample={"query's node": str(cls[1]), "chain": W.chain, "answer": got, "inputs": C.inputs_str(p, 10)}
+               if cls[0] in ("present", "absent") and len(W.chain) >= 2 else None)
     return cls
 
 
